@@ -338,6 +338,7 @@ func init() {
 			{Name: "symmetrical", TShards: 4, Run: c20Symmetrical},
 			{Name: "gostring", TShards: 4, Run: c20GoString},
 			{Name: "readers", Race: true, TShards: 2, Run: c20Readers},
+			{Name: "parallel", Race: true, Run: matrixParallel},
 			{Name: "compiled", Thorough: true, Run: c20Compiled},
 		},
 	})
